@@ -7,6 +7,10 @@ NOFALSE entries are behaviour-preserving edits: the quick check must stay at exi
 """
 
 MUTANTS = [
+    # ---------------- the pre-fix trees (reverse patches of the fix: commits) ----------------
+    ("C11", "revert-F5", [("patch", "revert-F5.diff", None)]),
+    ("C13", "revert-F3", [("patch", "revert-F3.diff", None)]),
+    ("C13", "revert-F2", [("patch", "revert-F2.diff", None)]),
     # ---------------- C11 ----------------
     ("C11", "succ-le", "bisturi/fragments.py",
      "if b2 < position + L:", "if b2 <= position + L:"),
@@ -28,6 +32,34 @@ MUTANTS = [
          "        i = bisect_right(self.begin_of_fragments, position) - 1\n        if self.fragments:",
          "        h = Fragments._hint\n        if h is not None and h[0] == position and h[2] == len(self.begin_of_fragments):\n            i = h[1]\n        else:\n            i = bisect_right(self.begin_of_fragments, position) - 1\n        Fragments._hint = (position + L, i + 1, len(self.begin_of_fragments) + 1)\n        if self.fragments:"),
         ("bisturi/fragments.py", "class Fragments:\n", "class Fragments:\n    _hint = None\n")]),
+    # ---------------- C13 ----------------
+    ("C13", "field-init-no-deepcopy", "bisturi/field.py",
+     "            obj = copy.deepcopy(self.default)\n", "            obj = self.default\n"),
+    ("C13", "ref-init-caches-clone", "bisturi/field.py",
+     "            if self.field_name not in defaults:\n                defaults[self.field_name] = prototype.clone()\n",
+     "            if self.field_name not in defaults:\n                if not hasattr(self, '_clone'):\n                    self._clone = prototype.clone()\n                defaults[self.field_name] = self._clone\n"),
+    ("C13", "bits-accumulator-on-field", "bisturi/field.py",
+     "        I = getattr(pkt, self.I.field_name)\n        setattr(\n            pkt, self.I.field_name,\n            ((getattr(pkt, self.field_name) << self.shift) & self.mask) |\n            (I & (~self.mask))\n        )\n",
+     "        I = 0 if self.iam_first else self.I._acc\n        self.I._acc = ((getattr(pkt, self.field_name) << self.shift) & self.mask) | (I & (~self.mask))\n        setattr(pkt, self.I.field_name, self.I._acc)\n"),
+    ("C13", "expr-operand-stack-shared", "bisturi/deferred.py",
+     "    args = list(args)\n", "    del args[:]\n"),
+    ("C13", "data-scratch-on-field", "bisturi/field.py",
+     "        byte_count = getattr(pkt, self.byte_count.field_name)\n        next_offset = offset + byte_count\n\n        chunk = raw[offset:next_offset]\n        if len(chunk) != byte_count:",
+     "        self._bc = getattr(pkt, self.byte_count.field_name)\n        next_offset = offset + self._bc\n\n        chunk = raw[offset:offset + self._bc]\n        byte_count = self._bc\n        if len(chunk) != byte_count:"),
+    ("C13", "sequence-count-scratch-on-field", "bisturi/structural_fields.py",
+     "        for _ in range(count_elements):\n", "        self._n = count_elements\n        for _ in range(self._n):\n"),
+    ("C13", "prototype-clone-shallow", "bisturi/packet.py",
+     "    def _clone_from_live_obj(self):\n        return copy.deepcopy(self.template)\n",
+     "    def _clone_from_live_obj(self):\n        return copy.copy(self.template)\n"),
+    ("C13", "optional-caches-by-offset", "bisturi/structural_fields.py",
+     "            obj = getattr(pkt, opt_elem_field_name)\n\n        setattr(pkt, self.field_name, obj)\n",
+     "            obj = getattr(pkt, opt_elem_field_name)\n            if hasattr(obj, 'get_fields'):\n                obj = self.__dict__.setdefault('_last', {}).setdefault(offset, obj)\n\n        setattr(pkt, self.field_name, obj)\n"),
+    ("C13", "bits-pack-normalises-in-place", "bisturi/field.py",
+     "        if self.iam_last:\n            return self.I.pack(pkt, fragments=fragments, **k)\n",
+     "        setattr(pkt, self.field_name, ((getattr(pkt, self.field_name) << self.shift) & self.mask) >> self.shift)\n        if self.iam_last:\n            return self.I.pack(pkt, fragments=fragments, **k)\n"),
+    ("C13", "ref-unpack-memo-by-content", "bisturi/field.py",
+     "        p = self.proto_class(_initialize_fields=False)\n        setattr(pkt, self.field_name, p)\n        return p.unpack_impl(**k)\n",
+     "        memo = self.__dict__.setdefault('_memo', {})\n        key = (k['raw'][k['offset']:k['offset'] + 16], k['offset'])\n        if key in memo:\n            p, end = memo[key]\n            setattr(pkt, self.field_name, p)\n            return end\n        p = self.proto_class(_initialize_fields=False)\n        setattr(pkt, self.field_name, p)\n        end = p.unpack_impl(**k)\n        if len(k['raw']) - k['offset'] <= 16:\n            memo[key] = (p, end)\n        return end\n"),
     # ---------------- C17 ----------------
     ("C17", "set-does-not-clear-flag", "bisturi/descriptor.py",
      "        setattr(instance, self.iam_enabled_attr_name, False)\n", "        pass\n"),
@@ -48,6 +80,10 @@ MUTANTS = [
 ]
 
 NOFALSE = [
+    ("C13", "generic-fallback-instead-of-generated", "bisturi/packet_builder.py",
+     "        generate_by_default = True if not self.am_in_debug_mode else False\n", "        generate_by_default = False\n"),
+    ("C13", "sequence-local-rename", "bisturi/structural_fields.py",
+     "        append = sequence.append\n", "        append = lambda x, _s=sequence: _s.append(x)\n"),
     ("C11", "rename-local", "bisturi/fragments.py", "        L = len(string)\n        if L == 0:", "        L = len(string)\n        if not string:"),
     ("C17", "getattr-default-explicit", "bisturi/descriptor.py",
      "        iam_enabled = getattr(instance, self.iam_enabled_attr_name, True)\n",
